@@ -14,7 +14,7 @@ import (
 func init() {
 	register(&propSpec{ID: "C06", Run: checkC06,
 		Explanation: "The decision table of the scan body: the delta before overrides is a φ whose incoming values are −fast_rate, −slow_rate, calcScaleUpDelta(untainted,…) and 0, selected — as equivalences relative to reaching the dispatch, modulo strictness at the band edges — by u below lower / between lower and upper / above scale-up / otherwise, with u = max(cpu%, mem%) of calcPercentUsage; every later definition is max(d,1) guarded by isScaleOnStarve / scaleOnMaxNodeAge; ScaleDown runs iff d<0 with count −d, ScaleUp iff d>0 with count d, otherwise only the reaper; ScaleUp cannot reach a taint, ScaleDown cannot reach an untaint or cloud increase; the taint count is min(rate, |U| − min_nodes) (both upper bounds entailed, value equal to one of them).",
-		RuleText:    "R1 band table (4 equivalences), R2 overrides, R3 dispatch (3 guards + completeness + counts), R4 reachability of action classes per arm, R5 exact count, R6 definition of u, R7 the taint loop performs exactly that many successful writes unless the list runs out (bounded accumulator over the whole sorted list), R8 validation admits only ordered thresholds and rates (shared with C16.R1)",
+		RuleText:    "R1 band table (4 equivalences), R2 overrides, R3 dispatch (3 guards + completeness + counts), R4 reachability of action classes per arm, R5 exact count, R6 definition of u, R7 the taint loop performs exactly that many successful writes unless the list runs out (bounded accumulator over the whole sorted list), R8 validation admits only ordered thresholds and rates (shared with C16.R1), R9 the taint candidates are all untainted nodes, oldest first",
 		Assumptions: []string{"floating-point rounding of u and behaviour exactly at a threshold are not decided (the statement leaves the edges open)"}})
 	register(&propSpec{ID: "C07", Run: checkC07,
 		Explanation: "In ScaleUp the untaint step dominates the cloud step, which runs only when the untaint step returned no error; the cloud step is asked for exactly N − (#untainted) and only if that is ≥ 1; the untaint loop is a bounded accumulator over every tainted node in newest-first order (comparator cross-checked against the oldest-first one); and no function reachable from the scan body reads the cached ASG desired capacity for a decision after an AWS mutation that was not mirrored into the cache (typestate over MUT / SYNC / READ with per-function summaries).",
@@ -498,6 +498,9 @@ func checkC06(ck *Check) {
 	ck.exactTaintCount("C06.R5")
 	// the loop achieves that count: it goes on past failed writes until n succeeded or the list ends
 	ck.boundedEffectLoop("C06.R7", a.TaintLoop, "A-TAINT")
+	// R9 the loop draws from every untainted node: the candidate list holds one entry per element of
+	// the list the clamp and the band were computed over (decided as C08.R1)
+	ck.sortBeforeLoop("C06.R9", a.TaintLoop, "A-TAINT", 1, "CreationTimestamp(i).Before(CreationTimestamp(j)) (oldest first)")
 	// R8 the statement quantifies over the triples and rate pairs validation accepts: the band switch
 	// (first true case wins) is the documented table only if 0 < lower < upper < scale-up, 0 ≤ slow ≤ fast
 	if a.Validate != nil {
